@@ -5,6 +5,7 @@ import (
 	"github.com/pion/stun/v3"
 	"io"
 	"net"
+	"runtime"
 	"sync"
 	"time"
 )
@@ -14,6 +15,7 @@ func init() {
 	verifRegister("verifC13AbortInterleaved", verifC13AbortInterleaved)
 	verifRegister("verifC13PendingRead", verifC13PendingRead)
 	verifRegister("verifC13TCPSiblingWrite", verifC13TCPSiblingWrite)
+	verifRegister("verifC13GetAfterLastClose", verifC13GetAfterLastClose)
 }
 
 func verifC13Refcount() {
@@ -291,5 +293,40 @@ func verifC13TCPSiblingWrite() {
 	verifAssertKnown(werr == nil && n == 2 && len(conn.written) == 2, "closing-one-handle(after-aborting-its-I/O)-leaves-the-sibling's-writes-working", "C13-tcp-write-deadline-shared", how == 0)
 	verifAssert(hB.Close() == nil, "close-ok")
 	verifRunGoroutines()
+	verifReach("done")
+}
+
+// Handing out a connection right after the last handle of the previous one was
+// closed: the caller must get a usable connection, never a handle of the one
+// that has just been closed (whose removal from the mux's table is done by a
+// watcher goroutine that may not have run yet).
+func verifC13GetAfterLastClose() {
+	m, sock := verifNewMux()
+	h1, err := m.GetConn("u0", sock.local)
+	verifAssert(err == nil, "GetConn-ok")
+	first := verifUnderlying(h1)
+	verifAssert(h1.Close() == nil, "close-ok") // last handle: the underlying connection is closed
+	for n := verifChoice(3); n > 0; n-- {
+		runtime.Gosched()
+	}
+	m.mu.Lock()
+	stale := m.connsIPv4["u0"] == first
+	m.mu.Unlock()
+	if stale {
+		verifReach("closed-conn-still-registered") // the watcher has not run yet
+	} else {
+		verifReach("watcher-already-ran")
+	}
+	h2, err := m.GetConn("u0", sock.local)
+	verifAssert(err == nil, "GetConn-ok")
+	second := verifUnderlying(h2)
+	verifAssert(second != first, "never-a-handle-of-the-connection-that-was-just-closed")
+	_, werr := h2.WriteTo([]byte{1, 2}, verifMuxAddrs[0])
+	verifAssert(werr == nil, "a-connection-handed-out-after-the-last-close-is-usable")
+	// the late watcher must not unregister the replacement either
+	verifLetOthersRun()
+	m.mu.Lock()
+	verifAssert(m.connsIPv4["u0"] == second, "the-replacement-stays-registered")
+	m.mu.Unlock()
 	verifReach("done")
 }
